@@ -96,6 +96,10 @@ class Distogram:  # pragma: no cover
             return
         # the range is read off `values` once the bins are in: a plain sequence must not fail there
         values = numpy.asarray(values)
+        if values.dtype.kind == "f" and values.dtype.itemsize < 8:
+            # numpy.histogram hands back float16 / float32 edges for such an array and their midpoints would be
+            # computed (and overflow) in that type: every stored centre is a float64
+            values = values.astype(numpy.float64)
         bin_values, counts = numpy.unique(values, return_counts=True)
         if len(bin_values) > (self._bin_count * 5):
             counts, bin_values = numpy.histogram(values, self._bin_count * 5, density=False)
